@@ -689,7 +689,32 @@ class Engine(ExprMixin, StmtMixin):
                                             self.spec_bool(prop, st, dict(env, **{var: VInt(q)})))))
 
     # ------------------------------------------------------------------ top level
+    def _note_models(self, T_):
+        """abstract domain objects that a contract's parameters / fields are typed with are assumptions about the environment"""
+        if isinstance(T_, TAbs):
+            try:
+                probe = T_.factory("probe", None)
+                doc = (type(probe).__doc__ or "").strip().split("\n\n")[0].replace("\n", " ")
+                doc = " ".join(doc.split())[:260]
+            except Exception:
+                doc = ""
+            self.used_trusted.add(f"model:{T_.label}" + (f" - {doc}" if doc else ""))
+        elif isinstance(T_, (TOpt,)):
+            self._note_models(T_.inner)
+        elif isinstance(T_, TSeq):
+            self._note_models(T_.elem)
+        elif isinstance(T_, TTuple):
+            for t in T_.elems:
+                self._note_models(t)
+        elif isinstance(T_, TRec):
+            for t in T_.fields.values():
+                self._note_models(t)
+        elif isinstance(T_, TObj):
+            for t in T_.fields.values():
+                self._note_models(t)
+
     def make_value(self, T_, name, st):
+        self._note_models(T_)
         if isinstance(T_, TDict):
             return st.alloc(HObj("builtins.dict", {"entries": VTuple([])}))
         if isinstance(T_, TOpt) and isinstance(T_.inner, TDict):
